@@ -40,7 +40,7 @@ exactly once. Operations that are parked and have not returned contribute nothin
 final abstract state equals the specification state after the *returned* operations only — pending
 operations have had no effect. -/
 namespace FunModel.C05
-open FunModel.Conc FunModel.Queue
+open FunModel.Conc FunModel.ConcSubj FunModel.Queue
 
 /-! ## tracker invariant, `Len ≤ hard limit` -/
 
